@@ -71,6 +71,11 @@ def cases(rng, tier, feats, drv_ok):
         add('value-missing', 'reject', v=vals[:-1])
         add('value-extra', 'reject', v=vals + [rng.felt()])
         add('ncolumns+1', 'reject', ncols=nc + 1)
+        # a column count that satisfies `columns x queries = cells` only MODULO THE FIELD: cells = honest rows + r surplus cells, declared
+        # count = cells / queries in the field (a huge number); over the naturals the shape is wrong — must be rejected
+        if len(Q) >= 2:
+            for r in sorted({1, len(Q) - 1}):
+                add(f'ncolumns=cells/queries-mod-p,surplus={r}', 'reject', ncols=(len(vals) + r) * pow(len(Q), -1, P) % P, v=vals + [rng.felt() for _ in range(r)])
         for w in (32, 64, 128):   # column counts congruent to the honest one modulo a machine word
             add(f'ncolumns+2^{w}', 'reject', ncols=nc + (1 << w))
         if auths:
